@@ -8,4 +8,6 @@ mcMenu == << << Rl(<<"p">>, <<"a">>, "copy", "c1"), Rl(<<"q">>, <<"b">>, "copy",
 mcInit == << <<"a", "S0">>, <<"b", "S0">> >>
 mcScriptBCB == << <<"build", "">>, <<"clean", "">>, <<"build", "">> >>
 mcScriptEdit == << <<"build", "">>, <<"edit", "a", "S1">>, <<"build", "">>, <<"edit", "a", "S0">>, <<"build", "">> >>
+\* one rule displaces a stale target whose bytes the other rule is about to take back from the cache: back-up against restore on one entry
+mcScriptStale == << <<"build", "">>, <<"del", "q">>, <<"edit", "a", "S1">>, <<"build", "">> >>
 ====
